@@ -185,7 +185,7 @@ func c15CLITasks(thorough bool) []mc.Task {
 									c15CheckCLI(c, box, c15CLICase{CLI: true, Alpha: alpha, Seqs: s, Ref: ref, Mode: "window", Start: st, Len: ln, Repl: repl, NoGap: nogap, NoRef: noref})
 								}
 							}
-							for _, ps := range [][]int{{0}, {L - 1}, {0, L - 1}, {L - 1, 0}, {1, 1}} {
+							for _, ps := range [][]int{{0}, {L - 1}, {0, L - 1}, {L - 1, 0}, {1, 1}, {0, 1}, {1, 0}, {L - 2, L - 1}, {0, 1, L - 1}} {
 								c15CheckCLI(c, box, c15CLICase{CLI: true, Alpha: alpha, Seqs: s, Ref: ref, Mode: "pos", Pos: ps, Repl: repl, NoGap: nogap, NoRef: noref})
 							}
 						}
